@@ -133,17 +133,18 @@ def pyItems (m : Mode) (n : Nat) : Nat → List Nat → PyRes (List Item)
     if c = 37 then
       match rest with
       | [] => .err .incomplete
-      | 37 :: rest' =>
-        match pyItems m n fuel rest' with
-        | .ok is => .ok (.ch 37 :: is)
-        | .err e => .err e
-      | _ :: _ =>
-        match pyConv m n rest with
-        | .err e => .err e
-        | .ok (s, rest') =>
+      | d :: rest' =>
+        if d = 37 then
           match pyItems m n fuel rest' with
-          | .ok is => .ok (.conv s :: is)
+          | .ok is => .ok (.ch 37 :: is)
           | .err e => .err e
+        else
+          match pyConv m n (d :: rest') with
+          | .err e => .err e
+          | .ok (s, rest'') =>
+            match pyItems m n fuel rest'' with
+            | .ok is => .ok (.conv s :: is)
+            | .err e => .err e
     else
       match pyItems m n fuel rest with
       | .ok is => .ok (.ch c :: is)
